@@ -33,6 +33,8 @@ def run_prop(prop, tier, seed, only=None, extra_jobs=None):
     core.build_and_run(jobs, prop)
     for j in jobs:
         res.absorb(j)
+        if getattr(j, "post", None):
+            j.post(res, j)
         if j.died:
             res.inconclusive.append("binary %s[%s] died outside a guarded case (rc=%s)" % (j.name, j.config, j.rc))
     res.extra["kernels_generated"] = len(ks)
